@@ -40,15 +40,17 @@ theorem insertSorted_sorted (key : ANode → String) (x : ANode) (l : List ANode
     unfold insertSorted
     have hy := List.pairwise_cons.mp h
     split
-    · rename_i hlt
+    · rename_i hxy
       refine List.pairwise_cons.mpr ⟨?_, h⟩
       intro z hz
-      have hxy : key x ≤ key y := str_le_of_lt hlt
       rcases List.mem_cons.mp hz with rfl | hz'
       · exact hxy
       · exact String.le_trans hxy (hy.1 z hz')
-    · rename_i hnlt
-      have hyx : key y ≤ key x := String.not_lt.mp hnlt
+    · rename_i hnle
+      have hyx : key y ≤ key x := by
+        rcases String.le_total (key x) (key y) with h' | h'
+        · exact absurd h' hnle
+        · exact h'
       refine List.pairwise_cons.mpr ⟨?_, ih hy.2⟩
       intro z hz
       rcases insertSorted_mem key x z ys hz with rfl | hz'
@@ -60,19 +62,25 @@ theorem stableSort_sorted (key : ANode → String) (l : List ANode) : SortedBy k
   | nil => simp [stableSort, SortedBy]
   | cons x xs ih => exact insertSorted_sorted key x _ ih
 
-/-- Stability: elements with equal keys keep their relative order — stated as: the sort leaves
-an already sorted list unchanged. -/
-theorem insertSorted_of_le_all (key : ANode → String) (x : ANode) (l : List ANode)
-    (h : ∀ z ∈ l, key x ≤ key z) (hs : SortedBy key l) : insertSorted key x l = x :: l ∨ ∃ y ∈ l, key y = key x := by
-  cases l with
-  | nil => exact Or.inl rfl
-  | cons y ys =>
-    unfold insertSorted
-    by_cases hlt : key x < key y
-    · simp [hlt]
-    · right
-      have h1 : key x ≤ key y := h y (by simp)
-      have h2 : key y ≤ key x := String.not_lt.mp hlt
-      exact ⟨y, by simp, String.le_antisymm h2 h1⟩
+/-- Stability and convergence: the sort leaves an already sorted list unchanged (elements with
+equal keys keep their order; a second pass over sorted items changes nothing). -/
+theorem stableSort_id_of_sorted (key : ANode → String) (l : List ANode) (h : SortedBy key l) :
+    stableSort key l = l := by
+  induction l with
+  | nil => rfl
+  | cons x xs ih =>
+    have hx := List.pairwise_cons.mp h
+    show insertSorted key x (stableSort key xs) = x :: xs
+    rw [ih hx.2]
+    cases xs with
+    | nil => rfl
+    | cons y ys =>
+      unfold insertSorted
+      simp [hx.1 y (by simp)]
+
+/-- Sorting twice is sorting once. -/
+theorem stableSort_idem (key : ANode → String) (l : List ANode) :
+    stableSort key (stableSort key l) = stableSort key l :=
+  stableSort_id_of_sorted key _ (stableSort_sorted key l)
 
 end Typstyle
